@@ -3,6 +3,7 @@ use crate::{run_op, OpResult, RunCfg};
 
 pub mod authurl;
 pub mod common;
+pub mod pkce;
 pub mod poll;
 pub mod req;
 
@@ -10,6 +11,11 @@ pub fn dispatch(op: &str, cfg: &RunCfg, d: &mut Driver) -> Option<OpResult> {
     Some(match op {
         "req" => run_op::<req::ReqCase>(cfg, d),
         "authurl" => run_op::<authurl::AuthUrlCase>(cfg, d),
+        "sha" => run_op::<pkce::ShaCase>(cfg, d),
+        "pkce_from" => run_op::<pkce::PkceFromCase>(cfg, d),
+        "pkce_gen" => run_op::<pkce::PkceGenCase>(cfg, d),
+        "pkce_flow" => run_op::<pkce::PkceFlowCase>(cfg, d),
+        "rand" => run_op::<pkce::RandCase>(cfg, d),
         "poll" => run_op::<poll::PollCase>(cfg, d),
         _ => return None,
     })
